@@ -260,6 +260,25 @@ def gen_placed(ctx):
                 h = bytes(h)
                 emit("find", h + b"\0", nd + b"\0")
                 emit("find_buf", h + b"\0", nd)
+    # (c2) SELF-OVERLAPPING needles: needle = u^k v with v starting differently from u, haystack = .. u^j needle ..: a false
+    # candidate starts |u| bytes before the real occurrence and fails only after k|u| bytes (a search that resumes anywhere
+    # but candidate + 1 loses the occurrence).  Real occurrence at EVERY position 0..71 (every offset inside 16-, 32- and
+    # 64-byte blocks; the haystack start alignment is drawn separately), periods 1..4, 1..3 repeats, needles of 2..16 bytes
+    for p in range(72 if quick else 200):
+        for ul in (1, 2, 3, 4):
+            for k in (1, 2, 3):
+                u = bytes([0x61 + ((p + i) % 2) for i in range(ul)]) if ul > 1 else b"a"
+                v = bytes([0x63]) + r.bytes(r.below(3), [0x61, 0x62])
+                nd = u * k + v
+                j = 1 + r.below(2)
+                if p < j * ul:
+                    continue
+                h = bytearray(r.bytes(p + len(nd) + r.below(24), [0x62, 0x64] if ul == 1 else [0x64, 0x65]))
+                h[p - j * ul:p] = u * j
+                h[p:p + len(nd)] = nd
+                h = bytes(h)
+                emit("find", h + b"\0", nd + b"\0")
+                emit("find_buf", h + b"\0", nd)
     # (d) ends_with: true suffixes of every length, and a mismatch at every position of the suffix
     for m in list(range(1, top + 1)) + LONG_LENS:
         for q in range(m + 1):
@@ -283,6 +302,11 @@ def gen_placed(ctx):
             emit("match", a + b"\0", b + b"\0")
             emit("match_str", a + b"\0", b)
             emit("match", b + b"\0", a + b"\0")
+        # equal operands of EVERY length (two buffers, not aliases): the walk ends on the terminators themselves
+        a = asc.take(n)
+        emit("match", a + b"\0", a + b"\0")
+        emit("match_str", a + b"\0", a)
+        emit("ends_with", a + b"\0", a + b"\0")
     # (f) joins of long operands, NAME_MAX-sized pieces on either side of the boundary
     paths = K.long_component_paths(r)
     for _ in range(150 if quick else 1500):
@@ -318,8 +342,9 @@ def run(ctx):
                 "PLACED stream (`at <n>`: operands are sub-slices at chosen start addresses mod 16 between chosen surrounding bytes): for "
                 "every length 1..40 (thorough 80) and 254..257, 300 — a separator at every position (alone / with a second one) through "
                 "parent/file_name (all 16 alignments up to length 16), a needle of 1/2/3/8/9/17 bytes planted at every position (with near "
-                "misses, absent needles) through find/find_buf, a suffix mismatch at every position through ends_with, the first "
-                "difference at every position through match_up_to/_str; paths around one component of 1..4097 bytes (NAME_MAX/PATH_MAX "
+                "misses, absent needles) through find/find_buf, SELF-OVERLAPPING needles u^k v (period 1..4, 1..3 repeats) right behind a false "
+                "candidate u^j with the real occurrence at every position 0..71 (thorough 199), a suffix mismatch at every position through ends_with, the first "
+                "difference at every position through match_up_to/_str, equal operands of every length through match_up_to/_str/ends_with; paths around one component of 1..4097 bytes (NAME_MAX/PATH_MAX "
                 "boundaries) behind 9 prefixes through parent/file_name/join/join_fmt; "
                 "FMT-SHAPES stream (`join_fmts <base> <lit> <form> <x> <y>`): path_join_fmt handed every SHAPE of fmt::Arguments — each of 22 "
                 "format strings that are LITERALS compiled into the harness (empty, a, /a, a/, /, //x, a/b, ., ./b, there, /there, //, /a/, "
@@ -327,9 +352,11 @@ def run(ctx):
                 "before / behind / on both sides of one `{}` argument, the argument alone, literal between / before / behind two arguments "
                 "(arguments: empty, leading / trailing / double separators, > NAME_MAX) — crossed with 16 dynamic bases (empty, /, trailing "
                 "and double separators, 255 / 300 / 4098 bytes) + paths around one long component, a quarter of the lines placed; "
+                "EVERY stream runs on the dev and release profiles and on each build variant of coverage.cfg_dimensions.variants (standing: -C target-cpu=native; "
+                "one per target feature / mixed debug-assertion setting the anchored files mention), stream names and replays carry the variant tag; "
                 "distinct_nontrivial = distinct (operation, outcome kind, operand lengths capped at 3 or flagged >= 255, operand ends in NUL, placed) classes")
     ctx.assumptions += [
-        "Model/UnixStr.lean describes rusl/src/string/unix_str.rs (checked by this run's correspondence, debug and release builds)",
+        "Model/UnixStr.lean describes rusl/src/string/unix_str.rs (checked by this run's correspondence: debug and release builds and every build variant of coverage.cfg_dimensions.variants)",
         "out-of-bounds reads are observed as SIGSEGV on operands placed at the end of a mapping followed by a PROT_NONE page (over-reads only; no operation computes a negative offset: proved on the model)",
         "find/find_buf search the raw bytes (terminator included); for NUL-free needles that equals searching the content (proved: find_eq_naive, find_buf_content)",
         "parent_path splits at the last separator, so the parent of a path with a trailing slash is the path without it (the doc comment's /home/gramar/code/ example, which is never executed, says otherwise)",
